@@ -221,13 +221,14 @@ def history_plan(tier, primary, n):
     bounded = lambda mp: mp is not None and mp < n
     notfull = lambda mp: mp is None or mp < n
     mid = lambda mp: mp == 2
+    low = lambda mp: mp is None or mp <= 2
     bounded_or_none = lambda mp: mp is None or (mp is not None and mp < n)
     if tier == 'quick':
         if primary:
             return {1: [('full', 1, anymp), ('full', 2, anymp), ('small', 3, anymp), ('small', 4, anymp)],
-                    2: [('full', 1, anymp), ('full', 2, anymp), ('medium', 3, notfull), ('small', 4, notfull), ('loc', 5, anymp)],
-                    3: [('full', 1, anymp), ('full', 2, anymp), ('medium', 3, bounded), ('small', 3, anymp), ('small', 4, bounded), ('loc', 5, anymp)],
-                    4: [('full', 1, anymp), ('full', 2, anymp), ('small', 3, anymp), ('loc', 4, anymp), ('loc', 5, mid)]}[n]
+                    2: [('full', 1, anymp), ('full', 2, anymp), ('medium', 3, notfull), ('small', 4, bounded), ('loc', 5, anymp)],
+                    3: [('full', 1, anymp), ('full', 2, anymp), ('medium', 3, bounded), ('small', 3, anymp), ('small', 4, mid), ('loc', 5, notfull)],
+                    4: [('full', 1, anymp), ('full', 2, low), ('small', 3, anymp), ('loc', 4, anymp), ('loc', 5, mid)]}[n]
         return [('full', 1, anymp), ('medium', 2, anymp), ('loc', 3, anymp)] if n <= 3 else [('full', 1, anymp)]
     if primary:
         return [('full', 1, anymp), ('full', 2, anymp), ('full', 3, anymp), ('medium', 4, anymp), ('small', 5, anymp), ('loc', 6, bounded)]
@@ -362,8 +363,8 @@ def apply_op(bus, model, op, world, last=False):
         r = bus.get(sel_labels[0])
         check_frame(r, sel_labels[0], world, mp, name, problems)
         pr = []
-        if sel_labels[0] in actual_loaded(bus, pr) and sel_labels[0] not in model.loaded:
-            model.touch(sel_labels[0])                       # an implementation that loads on get() is fine
+        if sel_labels[0] in actual_loaded(bus, pr):
+            model.touch(sel_labels[0])                       # get() is an access: it loads the Frame and refreshes its recency
         rm = bus.get('no-such-label', 'dflt')
         if rm != 'dflt':
             problems.append((f'{PID}:bus:get:default', f'get of a missing label returned {rm!r}'))
@@ -735,7 +736,8 @@ RULE = ('F: 1..4 frames (4 shapes/dtype mixes/label depths, rotated) x every off
 
 
 def _bound(tier, skipped):
-    b = ('quick: zip-pickle full alphabet (n+21 ops) length<=2, medium (n+10) length 3 (n=2,3), small (n+4) length 3-4, single-label alphabet length 5; '
+    b = ('quick: zip-pickle full alphabet (n+21 ops) length<=2, medium (n+10) length 3 (n=2,3), small (n+4) length 3-4, single-label alphabet length 4-5 '
+         '(the longest lengths for selected max_persist values, see history_plan); '
          'csv/tsv/sqlite full length 1, medium length 2, single-label length 3; mutation prefixes length<=2 (pickle) / <=1; '
          if tier == 'quick' else
          'thorough: zip-pickle full alphabet length<=3, medium length 4, small length 5, single-label length 6; csv/tsv/sqlite full length<=2, medium 3, small 4; '
